@@ -36,22 +36,22 @@ CATALOGUE = [
     ("markup-close-pops-first", "C04", "markup.py", "for index, (_, tag, _) in enumerate(reversed(style_stack), 1):", "for index, (_, tag, _) in enumerate(style_stack, 1 - len(style_stack) or 1):"),
     ("markup-spans-sorted-by-value", "C04", "markup.py", "text.spans = [span for _, span in sorted(spans)]", "text.spans = sorted(span for _, span in spans)"),
     # ---- C05
-    ("append-no-length-update", "C05", "text.py", "                    self._spans.append(Span(offset, offset + text_length, style))\n                self._length += text_length", "                    self._spans.append(Span(offset, offset + text_length, style))\n                self._length += len(text) if style is None else text_length - 0"),
+    ("append-no-length-update", "C05", "text.py", "                    self._spans.append(Span(offset, offset + text_length, style))\n                self._length += text_length", "                    self._spans.append(Span(offset, offset + text_length, style))\n                self._length += text_length if (text.strip() or style) else 0"),
     ("pad_left-no-span-shift", "C05", "text.py", "            self.plain = f\"{character * count}{self.plain}\"\n            _Span = Span\n            self._spans[:] = [\n                _Span(start + count, end + count, style)", "            self.plain = f\"{character * count}{self.plain}\"\n            _Span = Span\n            self._spans[:] = [\n                _Span(start + count, end + count - (count > 3), style)"),
     ("init-length-unstripped", "C05", "text.py", "self._length: int = len(sanitized_text)", "self._length: int = len(text)"),
     ("divide-order-by-start", "C05", "text.py", "            line_spans.sort(key=itemgetter(0))", "            line_spans.sort(key=lambda item: item[1].start)"),
     # ---- C02
     ("wrap-position-len", "C02", "_wrap.py", "line_position = _cell_len(word)\n        else:", "line_position = len(word)\n        else:"),
-    ("truncate-ellipsis-width", "C02", "text.py", "self.plain = set_cell_size(self.plain, max_width - 1) + \"…\"", "self.plain = set_cell_size(self.plain, max_width) + \"…\""),
+    ("truncate-ellipsis-width", "C01", "text.py", "self.plain = set_cell_size(self.plain, max_width - 1) + \"…\"", "self.plain = set_cell_size(self.plain, max_width) + \"…\""),
     # ---- C03
     ("no-reset-code", "C03", "style.py", "rendered = f\"\\x1b[{attrs}m{text}\\x1b[0m\" if attrs else text", "rendered = f\"\\x1b[{attrs}m{text}\\x1b[0m\" if attrs and self._color else (f\"\\x1b[{attrs}m{text}\" if attrs else text)"),
-    ("link-not-closed-on-legacy-flag", "C03", "style.py", "if self._link and not legacy_windows:", "if self._link and legacy_windows is not None and not (legacy_windows and self._link):"),
+    ("link-not-closed-on-legacy-flag", "C03", "style.py", "if self._link and not legacy_windows:", "if self._link:"),
     ("ansi-cache-ignores-system", "C03", "style.py", "if self._ansi is None or self._ansi[0] != color_system:", "if self._ansi is None:"),
     ("control-written-to-non-terminal", "C03", "console.py", "elif not (not_terminal and is_control):", "elif not (not_terminal and is_control and len(text) > 3):"),
     # ---- C19
     ("decoder-bg-bright-off-by-one", "C19", "ansi.py", "    103: \"on color(11)\",", "    103: \"on color(12)\","),
     ("fileproxy-drops-empty-lines", "C19", "file_proxy.py", "                lines.append(\"\".join(buffer) + line)", "                if buffer or line:\n                    lines.append(\"\".join(buffer) + line)"),
-    ("fileproxy-flush-markup", "C19", "file_proxy.py", "self.__console.print(output, markup=False, emoji=False, highlight=False)", "self.__console.print(output)"),
+    ("fileproxy-flush-markup", "C19", "file_proxy.py", "            self.__console.print(output, markup=False, emoji=False, highlight=False)\n            del buffer[:]", "            self.__console.print(\"\".join(buffer))\n            del buffer[:]"),
     # ---- C20
     ("pop-does-not-rebind", "C20", "theme.py", "        self._entries.pop()\n        self.get = self._entries[-1].get", "        self._entries.pop()\n        self.get = self._entries[-1].get if len(self._entries) > 1 else self.get"),
     ("use_theme-ignores-inherit", "C20", "console.py", "self.console.push_theme(self.theme, inherit=self.inherit)", "self.console.push_theme(self.theme)"),
